@@ -10,6 +10,7 @@ import (
 	"errors"
 	"fmt"
 	"math/rand"
+	"sort"
 	"sync"
 
 	"github.com/milvus-io/milvus-proto/go-api/v2/commonpb"
@@ -28,13 +29,13 @@ import (
 )
 
 type dmsg struct {
-	kind       string
-	id         uint64
-	db, coll   string
-	ts, endts  uint64
-	digest     uint64
-	rep        bool
-	rid        string
+	kind      string
+	id        uint64
+	db, coll  string
+	ts, endts uint64
+	digest    uint64
+	rep       bool
+	rid       string
 }
 
 func (d dmsg) term() string {
@@ -131,11 +132,11 @@ func fromPB(ps []*msgpb.MsgPosition) []pos {
 }
 
 type rparam struct {
-	ch         string
-	begin, end uint64
+	ch          string
+	begin, end  uint64
 	start, endp []pos
-	flag       bool
-	msgs       []dmsg
+	flag        bool
+	msgs        []dmsg
 }
 
 func (p rparam) term() string {
@@ -264,118 +265,152 @@ func main() {
 			m[util.GetFullCollectionName(e[1], e[0])] = util.GetFullCollectionName(e[3], e[2])
 		}
 		w.(*writer.ChannelWriter).UpdateNameMappings(m)
-		nch := 1 + r.Intn(4)
-		type call struct {
-			ch   string
-			pack *msgstream.MsgPack
-			src  []dmsg
-			fail bool
-			endID string
+		// a third of the histories go on after the mapping has been extended (UpdateNameMappings merges): a second case over the
+		// same writer with the merged mapping - names of messages seen before the update are mapped by the new mapping too
+		phases := 1
+		if r.Intn(3) == 0 {
+			phases = 2
 		}
-		perChan := make([][]call, nch)
-		var all []call
-		id := int64(1)
-		for c := 0; c < nch; c++ {
-			ch := fmt.Sprintf("by-dev-rootcoord-dml_%d", c)
-			for k := 0; k < 1+r.Intn(4); k++ {
-				p := &msgstream.MsgPack{BeginTs: uint64(r.Intn(1000)), EndTs: uint64(1000 + r.Intn(1000))}
-				nmsg := r.Intn(5)
-				if r.Intn(8) == 0 {
-					nmsg = 0
+		for phase := 0; phase < phases; phase++ {
+			if phase == 1 {
+				add := shapes[1+r.Intn(len(shapes)-1)]
+				m2 := map[string]string{}
+				merged := map[[2]string][4]string{}
+				for _, e := range nm {
+					merged[[2]string{e[0], e[1]}] = e
 				}
-				var src []dmsg
-				for i := 0; i < nmsg; i++ {
-					mm := genMsg(r, id, []string{"", "default", "db1", "db2"}, []string{"c1", "c2"})
-					id++
-					src = append(src, abstract(mm, false))
-					p.Msgs = append(p.Msgs, mm)
+				for _, e := range add {
+					m2[util.GetFullCollectionName(e[1], e[0])] = util.GetFullCollectionName(e[3], e[2])
+					merged[[2]string{e[0], e[1]}] = e
 				}
-				endID := fmt.Sprintf("e%d-%d", c, k)
-				for i := 0; i < 1+r.Intn(2); i++ {
-					p.StartPositions = append(p.StartPositions, &msgpb.MsgPosition{ChannelName: ch, MsgID: []byte(fmt.Sprintf("s%d-%d-%d", c, k, i)), Timestamp: uint64(r.Intn(2000))})
+				w.(*writer.ChannelWriter).UpdateNameMappings(m2)
+				var keys [][2]string
+				for k := range merged {
+					keys = append(keys, k)
 				}
-				for i := 0; i < r.Intn(2); i++ {
-					p.EndPositions = append(p.EndPositions, &msgpb.MsgPosition{ChannelName: ch, MsgID: []byte(fmt.Sprintf("x%d-%d-%d", c, k, i)), Timestamp: uint64(r.Intn(2000))})
+				sort.Slice(keys, func(i, j int) bool { return keys[i][0]+"/"+keys[i][1] < keys[j][0]+"/"+keys[j][1] })
+				nm = nil
+				for _, k := range keys {
+					nm = append(nm, merged[k])
 				}
-				p.EndPositions = append(p.EndPositions, &msgpb.MsgPosition{ChannelName: ch, MsgID: []byte(endID), Timestamp: uint64(r.Intn(2000))})
-				cl := call{ch: ch, pack: p, src: src, fail: nmsg > 0 && r.Intn(5) == 0, endID: endID}
+				fh.mu.Lock()
+				fh.log, fh.failKey, fh.last = map[string][]rparam{}, map[string]bool{}, map[string]*rparam{}
+				fh.mu.Unlock()
+				o.Count("second phase after a mapping update")
+			}
+			nch := 1 + r.Intn(4)
+			type call struct {
+				ch    string
+				pack  *msgstream.MsgPack
+				src   []dmsg
+				fail  bool
+				endID string
+			}
+			perChan := make([][]call, nch)
+			var all []call
+			id := int64(1)
+			for c := 0; c < nch; c++ {
+				ch := fmt.Sprintf("by-dev-rootcoord-dml_%d", c)
+				for k := 0; k < 1+r.Intn(4); k++ {
+					p := &msgstream.MsgPack{BeginTs: uint64(r.Intn(1000)), EndTs: uint64(1000 + r.Intn(1000))}
+					nmsg := r.Intn(5)
+					if r.Intn(8) == 0 {
+						nmsg = 0
+					}
+					var src []dmsg
+					for i := 0; i < nmsg; i++ {
+						mm := genMsg(r, id, []string{"", "default", "db1", "db2"}, []string{"c1", "c2"})
+						id++
+						src = append(src, abstract(mm, false))
+						p.Msgs = append(p.Msgs, mm)
+					}
+					endID := fmt.Sprintf("e%d-%d", c, k)
+					for i := 0; i < 1+r.Intn(2); i++ {
+						p.StartPositions = append(p.StartPositions, &msgpb.MsgPosition{ChannelName: ch, MsgID: []byte(fmt.Sprintf("s%d-%d-%d", c, k, i)), Timestamp: uint64(r.Intn(2000))})
+					}
+					for i := 0; i < r.Intn(2); i++ {
+						p.EndPositions = append(p.EndPositions, &msgpb.MsgPosition{ChannelName: ch, MsgID: []byte(fmt.Sprintf("x%d-%d-%d", c, k, i)), Timestamp: uint64(r.Intn(2000))})
+					}
+					p.EndPositions = append(p.EndPositions, &msgpb.MsgPosition{ChannelName: ch, MsgID: []byte(endID), Timestamp: uint64(r.Intn(2000))})
+					cl := call{ch: ch, pack: p, src: src, fail: nmsg > 0 && r.Intn(5) == 0, endID: endID}
+					if cl.fail {
+						fh.failKey[ch+"/"+endID] = true
+					}
+					perChan[c] = append(perChan[c], cl)
+				}
+			}
+			// one goroutine per channel (calls on one channel are sequential, channels run concurrently)
+			type res struct {
+				id  []byte
+				err error
+				rp  *rparam
+			}
+			results := make([][]res, nch)
+			var wg sync.WaitGroup
+			for c := 0; c < nch; c++ {
+				wg.Add(1)
+				go func(c int) {
+					defer wg.Done()
+					for _, cl := range perChan[c] {
+						idb, _, err := w.HandleReplicateMessage(context.Background(), cl.ch, cl.pack)
+						fh.mu.Lock()
+						rp := fh.last[cl.ch+"/"+cl.endID]
+						fh.mu.Unlock()
+						results[c] = append(results[c], res{idb, err, rp})
+					}
+				}(c)
+			}
+			wg.Wait()
+			var callTerms, obsTerms, logTerms []string
+			for c := 0; c < nch; c++ {
+				for k, cl := range perChan[c] {
+					all = append(all, cl)
+					packTerm := fmt.Sprintf("{| rp_begin := %s; rp_end := %s; rp_start := %s; rp_endp := %s; rp_msgs := %s |}",
+						cq.N(cl.pack.BeginTs), cq.N(cl.pack.EndTs), cq.MapList(fromPB(cl.pack.StartPositions), posTerm), cq.MapList(fromPB(cl.pack.EndPositions), posTerm),
+						cq.MapList(cl.src, func(d dmsg) string { return d.term() }))
+					callTerms = append(callTerms, fmt.Sprintf("{| rc_chan := %s; rc_pack := %s; rc_fail := %s |}", cq.Str(cl.ch), packTerm, cq.Bool(cl.fail)))
+					rs := results[c][k]
+					pt := "None"
+					if rs.rp != nil {
+						pt = cq.Some(rs.rp.term())
+					}
+					rt := "RErr"
+					if rs.err == nil {
+						rt = cq.App("ROk", cq.Str(string(rs.id)))
+					}
+					obsTerms = append(obsTerms, fmt.Sprintf("{| ro_param := %s; ro_res := %s |}", pt, rt))
+				}
+				ch := fmt.Sprintf("by-dev-rootcoord-dml_%d", c)
+				logTerms = append(logTerms, cq.Pair(cq.Str(ch), cq.MapList(fh.log[ch], func(p rparam) string { return p.term() })))
+			}
+			nmTerm := cq.MapList(nm, func(m [4]string) string {
+				return cq.Pair(cq.Pair(cq.Str(m[0]), cq.Str(m[1])), cq.Pair(cq.Str(m[2]), cq.Str(m[3])))
+			})
+			o.Add(fmt.Sprintf("{| c_rid := %s; c_nm := %s; c_dtick := %s; c_calls := %s; c_obs := %s; c_chanlog := %s |}",
+				cq.Str(rid), nmTerm, cq.N(dtick), cq.List(callTerms), cq.List(obsTerms), cq.List(logTerms)))
+			o.Count(fmt.Sprintf("channels=%d", nch))
+			if rid != "" {
+				o.Count("with-replicate-id")
+			}
+			o.Count(fmt.Sprintf("mapping-entries=%d", len(nm)))
+			nmsgs := 0
+			for _, cl := range all {
+				nmsgs += len(cl.src)
+				for _, d := range cl.src {
+					o.Count("msg:" + d.kind)
+				}
 				if cl.fail {
-					fh.failKey[ch+"/"+endID] = true
+					o.Count("failing-call")
 				}
-				perChan[c] = append(perChan[c], cl)
-			}
-		}
-		// one goroutine per channel (calls on one channel are sequential, channels run concurrently)
-		type res struct {
-			id  []byte
-			err error
-			rp  *rparam
-		}
-		results := make([][]res, nch)
-		var wg sync.WaitGroup
-		for c := 0; c < nch; c++ {
-			wg.Add(1)
-			go func(c int) {
-				defer wg.Done()
-				for _, cl := range perChan[c] {
-					idb, _, err := w.HandleReplicateMessage(context.Background(), cl.ch, cl.pack)
-					fh.mu.Lock()
-					rp := fh.last[cl.ch+"/"+cl.endID]
-					fh.mu.Unlock()
-					results[c] = append(results[c], res{idb, err, rp})
+				if len(cl.src) == 0 {
+					o.Count("empty-pack")
 				}
-			}(c)
-		}
-		wg.Wait()
-		var callTerms, obsTerms, logTerms []string
-		for c := 0; c < nch; c++ {
-			for k, cl := range perChan[c] {
-				all = append(all, cl)
-				packTerm := fmt.Sprintf("{| rp_begin := %s; rp_end := %s; rp_start := %s; rp_endp := %s; rp_msgs := %s |}",
-					cq.N(cl.pack.BeginTs), cq.N(cl.pack.EndTs), cq.MapList(fromPB(cl.pack.StartPositions), posTerm), cq.MapList(fromPB(cl.pack.EndPositions), posTerm),
-					cq.MapList(cl.src, func(d dmsg) string { return d.term() }))
-				callTerms = append(callTerms, fmt.Sprintf("{| rc_chan := %s; rc_pack := %s; rc_fail := %s |}", cq.Str(cl.ch), packTerm, cq.Bool(cl.fail)))
-				rs := results[c][k]
-				pt := "None"
-				if rs.rp != nil {
-					pt = cq.Some(rs.rp.term())
-				}
-				rt := "RErr"
-				if rs.err == nil {
-					rt = cq.App("ROk", cq.Str(string(rs.id)))
-				}
-				obsTerms = append(obsTerms, fmt.Sprintf("{| ro_param := %s; ro_res := %s |}", pt, rt))
 			}
-			ch := fmt.Sprintf("by-dev-rootcoord-dml_%d", c)
-			logTerms = append(logTerms, cq.Pair(cq.Str(ch), cq.MapList(fh.log[ch], func(p rparam) string { return p.term() })))
-		}
-		nmTerm := cq.MapList(nm, func(m [4]string) string {
-			return cq.Pair(cq.Pair(cq.Str(m[0]), cq.Str(m[1])), cq.Pair(cq.Str(m[2]), cq.Str(m[3])))
-		})
-		o.Add(fmt.Sprintf("{| c_rid := %s; c_nm := %s; c_dtick := %s; c_calls := %s; c_obs := %s; c_chanlog := %s |}",
-			cq.Str(rid), nmTerm, cq.N(dtick), cq.List(callTerms), cq.List(obsTerms), cq.List(logTerms)))
-		o.Count(fmt.Sprintf("channels=%d", nch))
-		if rid != "" {
-			o.Count("with-replicate-id")
-		}
-		o.Count(fmt.Sprintf("mapping-entries=%d", len(nm)))
-		nmsgs := 0
-		for _, cl := range all {
-			nmsgs += len(cl.src)
-			for _, d := range cl.src {
-				o.Count("msg:" + d.kind)
+			if nmsgs >= 2 {
+				o.NonTrivial(fmt.Sprint(callTerms))
 			}
-			if cl.fail {
-				o.Count("failing-call")
-			}
-			if len(cl.src) == 0 {
-				o.Count("empty-pack")
-			}
+			o.Sample(map[string]interface{}{"replicate_id": rid, "mapping": nmTerm, "first_call": callTerms[0], "first_observation": obsTerms[0]})
 		}
-		if nmsgs >= 2 {
-			o.NonTrivial(fmt.Sprint(callTerms))
-		}
-		o.Sample(map[string]interface{}{"replicate_id": rid, "mapping": nmTerm, "first_call": callTerms[0], "first_observation": obsTerms[0]})
 	}
 	if err := o.Flush(); err != nil {
 		panic(err)
